@@ -588,18 +588,33 @@ func ruleO4(c *an.Ctx) {
 			}
 			t := an.NewTaint(3, inCore)
 			t.IndexFields(fns)
+			t.CallSites = func(f *ssa.Function) []ssa.CallInstruction {
+				var out []ssa.CallInstruction
+				for caller, sites := range p.Callers(f) {
+					if inCore(caller) {
+						out = append(out, sites...)
+					}
+				}
+				return out
+			}
 			n := 0
-			an.Instrs(root, func(in ssa.Instruction) {
-				call, ok := in.(*ssa.Call)
-				if !ok || !call.Call.IsInvoke() || call.Call.Method.Name() != s.method {
-					return
-				}
-				if !isCallGraphNode(call.Call.Value.Type()) {
-					return
-				}
-				n++
-				t.Add(call)
-			})
+			// the accessor may be consulted, and the prenode set filled, in private helpers of the constructor
+			fam := familyOf(p, root, 2)
+			inFamO4 := map[*ssa.Function]bool{}
+			for _, m := range fam {
+				inFamO4[m] = true
+				an.Instrs(m, func(in ssa.Instruction) {
+					call, ok := in.(*ssa.Call)
+					if !ok || !call.Call.IsInvoke() || call.Call.Method.Name() != s.method {
+						return
+					}
+					if !isCallGraphNode(call.Call.Value.Type()) {
+						return
+					}
+					n++
+					t.AddSource(call)
+				})
+			}
 			key := "dep-source(" + s.method + ")@" + rootName
 			if n == 0 {
 				c.Fail("O4", key, root.Pos(), "the constructor no longer consults CallGraphNode."+s.method+"(): the calls it depends on through it would not become prenodes")
@@ -608,17 +623,22 @@ func ruleO4(c *an.Ctx) {
 			t.Run()
 			reachedPrenodes, reachedPost := false, false
 			for sink := range t.Sinks {
-				if mu, ok := sink.(*ssa.MapUpdate); ok && an.LoadsField(mu.Map, prenodes) && an.Outermost(mu.Parent()) == root {
+				// any store into Node.prenodes the references flow to (the taint starts at this constructor's
+				// accessor calls only, so a reached store is a genuine flow, whichever helper performs it)
+				if mu, ok := sink.(*ssa.MapUpdate); ok && an.LoadsField(mu.Map, prenodes) {
 					reachedPrenodes = true
 				}
 			}
-			for _, call := range callsTo(root, setPost) {
-				for _, a := range call.Common().Args {
-					if t.Has(a) {
-						reachedPost = true
+			for _, m := range fns {
+				for _, call := range callsTo(m, setPost) {
+					for _, a := range call.Common().Args {
+						if t.Has(a) {
+							reachedPost = true
+						}
 					}
 				}
 			}
+			_ = inFamO4
 			c.Check("O4", key+":reaches-prenodes", root.Pos(), reachedPrenodes,
 				"references found through "+s.method+"() must flow into the store into Node.prenodes")
 			c.Check("O4", key+":reaches-postnodes", root.Pos(), reachedPost,
@@ -681,6 +701,37 @@ func ruleO4(c *an.Ctx) {
 				}
 			}
 		})
+		if !inserted {
+			// the FindRefs() result may be handed to a helper that performs the insertion
+			an.Instrs(mpb, func(in ssa.Instruction) {
+				call, ok := in.(*ssa.Call)
+				if !ok {
+					return
+				}
+				h := call.Call.StaticCallee()
+				if h == nil || h.Blocks == nil || h.Pkg != mpb.Pkg {
+					return
+				}
+				for i, a := range call.Call.Args {
+					ai, isI := a.(ssa.Instruction)
+					if !isI || !isRaw(ai) || i >= len(h.Params) {
+						continue
+					}
+					prm := h.Params[i]
+					an.Instrs(h, func(hin ssa.Instruction) {
+						mu, ok := hin.(*ssa.MapUpdate)
+						if !ok {
+							return
+						}
+						sl := newSlice(h)
+						sl.add(mu.Key)
+						if sl.seen[prm] {
+							inserted = true
+						}
+					})
+				}
+			})
+		}
 		c.Check("O4", "fork-roots(raw refs inserted)@(*Node).makePrenodesForBinding", mpb.Pos(), inserted,
 			"the nodes named by the raw expression references must be inserted into the prenode set (a map update whose key derives from the FindRefs() result)")
 	}
